@@ -135,7 +135,8 @@ ExpCasesForO(ctx, termOut, xn, ssh, sch, allMaps, pre, out2) ==
       srcs == {sub.nodes[j].name : j \in Sources(ssh)}
       snks == {sub.nodes[j].name : j \in Terminals(ssh)}
       omaps == IF allMaps THEN [xout -> snks] ELSE {f \in [xout -> snks] : \A o1, o2 \in xout : o1 # o2 => f[o1] # f[o2]}
-      imaps == IF xin = {} THEN {<<>>} ELSE [srcs -> xin]
+      \* explicit input maps: {} (nothing is spliced, whatever the names), partial, full -- exactly the listed sources are spliced
+      imaps == IF xin = {} THEN {<<>>} ELSE UNION {[S -> xin] : S \in SUBSET srcs}
       \* partial output maps: any proper subset of the outputs is mapped, the others fall back to the sink of the same name
       pomaps == UNION {[D -> snks] : D \in {D \in SUBSET xout : D # xout /\ (xout \ D) \subseteq snks}}
   IN  {[op |-> "expand", pre |-> pre, g |-> g, x |-> x, sub |-> sub, imapNone |-> TRUE, imap |-> <<>>, omapNone |-> FALSE, omap |-> PairsOf(om)] :
